@@ -518,3 +518,59 @@ class Sim:
 
 def hexid(i):
     return "0x%08X" % i
+
+
+class Peer:
+    """a bus participant that is not a stack under test (the reference peer / an adversary).
+    `on_frame(frame)` is called for every frame on the bus after `latency`; `send()` puts a frame on the bus."""
+
+    def __init__(self, sim, name, latency=500):
+        self.sim = sim
+        self.name = name
+        self.latency = latency
+        self.on_frame = None
+        sim.peers.append(self)
+
+    def send(self, can_id, data, fd=False):
+        sim = self.sim
+        sim.log({"ev": "ptx", "node": self.name, "id": can_id, "data": list(data), "fd": bool(fd), "ext": True})
+        fr = (can_id, True, list(data), bool(fd))
+        idx = sim.nframes
+        sim.nframes += 1
+        for n in sim.nodes:
+            lat = n.latency(fr) if callable(n.latency) else n.latency
+            arrival = max(sim.now_us + max(lat, 1), n.last_arrival)
+            n.last_arrival = arrival
+            n.pending_rx += 1
+
+            def _later(n=n, fr=fr):
+                n.pending_rx -= 1
+                sim.deliver(n, fr)
+            sim.at(arrival, _later)
+
+
+def _sim_init_peers(orig):
+    def init(self, *a, **kw):
+        orig(self, *a, **kw)
+        self.peers = []
+    return init
+
+
+Sim.__init__ = _sim_init_peers(Sim.__init__)
+_orig_broadcast = Sim.broadcast
+
+
+def _broadcast_with_peers(self, src, fr):
+    dropped_before = self.nframes
+    silent = src.silent
+    lost = (not silent) and self.drop is not None and self.drop(self.nframes, src, fr)
+    # (the drop predicate is evaluated again inside; predicates are pure functions of idx)
+    _orig_broadcast(self, src, fr)
+    if silent or lost:
+        return
+    for p in self.peers:
+        if p.on_frame is not None:
+            self.at(self.now_us + max(1, p.latency), lambda p=p, fr=fr: p.on_frame(fr))
+
+
+Sim.broadcast = _broadcast_with_peers
